@@ -5,9 +5,9 @@
 # claimed) stores it as /verif/seeded/<ID>-<changeN>/ with meta.json extended by what was run.  Scratch is removed.
 set -u
 ID=$1; CH=$2; TMO=${3:-900}
-SRC=/tmp/seedout/$ID/$CH
+SRC=${SEEDOUT:-/tmp/seedout}/$ID/$CH
 [ -f "$SRC/patch.diff" ] || { echo "no patch in $SRC"; exit 2; }
-W=/tmp/acc-$ID-$CH
+W=/tmp/acc-$ID-${TAG:-}$CH
 git -C /repo worktree remove --force $W >/dev/null 2>&1; rm -rf $W
 git -C /repo worktree add -q --detach $W HEAD || exit 2
 trap 'git -C /repo worktree remove --force '$W' >/dev/null 2>&1; rm -rf '$W' '$W'.head' EXIT
@@ -24,7 +24,7 @@ ST=$(/var/tmp/run_stable.sh $W/_b 2>&1 | tail -1)
 demo $W/_b > $W/_b/demo_changed.txt 2>&1; DC=$?
 echo "$ID/$CH: demo(HEAD)=$DH demo(changed)=$DC stable: $ST"
 if [ $DH -eq 0 ] && [ $DC -ne 0 ] && echo "$ST" | grep -q "failing \[\]"; then
-  D=/verif/seeded/$ID-$CH; mkdir -p $D
+  D=/verif/seeded/$ID-${TAG:-}$CH; mkdir -p $D
   cp "$SRC/patch.diff" $D/; find "$SRC" -maxdepth 1 -type f -size -256k ! -name meta.json -exec cp {} $D/ \;
   tail -c 3000 $W.head/demo_head.txt > $D/demo_on_head.txt; tail -c 3000 $W/_b/demo_changed.txt > $D/demo_on_changed.txt
   python3 - "$SRC/meta.json" "$D/meta.json" "$DH" "$DC" "$ST" <<'PY'
